@@ -1,7 +1,7 @@
 """C42 - Subprocess exit is reported once with the right status.
 """
 from harness import framework
-from harness.proc_driver import replay_subprocess
+from harness.proc_driver import replay_subprocess, gen_paths_fast, random_subprocess_trace
 
 MAXC_GEN = 2
 
@@ -13,10 +13,15 @@ def replayer(extra, path):
 def run(ctx):
     ctx.mc("proc", "SubprocessExit", "MC_SubprocessExit.cfg",
            required_actions=["Exit", "Register", "Sigchld", "CancelWait", "Initialize", "Uninitialize"])
-    L = ctx.pick(5, 6)
-    paths = ctx.gen_paths("proc", "Gen_SubprocessExit", "Gen_SubprocessExit.cfg", overrides={"L": L})
+    L = ctx.pick(4, 5)
+    paths = gen_paths_fast(ctx, "proc", "Gen_SubprocessExit", "Gen_SubprocessExit.cfg", overrides={"L": L})
     ctx.replay(paths, replayer, nontrivial=lambda e, p: len(p) >= 3)
     ctx.cov["exhaustive"] = True
+    n = ctx.pick(200, 5000)
+    maxc = 8
+    jobs = [(i + 1, ctx.seed * 1000003 + i, maxc, ctx.pick(40, 60)) for i in range(n)]
+    traces = framework.pool_map(random_subprocess_trace, jobs)
+    ctx.validate("proc", "Trace_SubprocessExit", "Trace_SubprocessExit.cfg", traces, overrides={"MaxC": maxc})
     ctx.cov["rule"] = "every history up to length %d" % L
 
 
